@@ -162,21 +162,77 @@ def shape_emit(tree):
 
 # ----------------------------------------------------------------------------- _protected_lock
 def shape_lock(tree):
+    """-> (test precedes the set and is outside the try, reset in a finally, marker is per thread)
+
+    Two marker styles are understood: the code's `threading.local()` attribute read with
+    `getattr(self.M, "acquired", False)`, and a single attribute holding the owner's thread ident
+    (`self.M == threading.get_ident()` / `self.M = ident` / `self.M = None`) – the latter is NOT per thread."""
     fn = find_func(tree, "_protected_lock", cls="Handler")
     body = strip_doc(fn.body)
+    ident_names = set()
+    while body and isinstance(body[0], ast.Assign) and ast.unparse(body[0].value) == "threading.get_ident()" \
+            and isinstance(body[0].targets[0], ast.Name):
+        ident_names.add(body[0].targets[0].id)
+        body = body[1:]
+    style = {}
+
+    def is_ident(node):
+        return (isinstance(node, ast.Name) and node.id in ident_names) or ast.unparse(node) == "threading.get_ident()"
+
+    def marker_of(node):
+        src = ast.unparse(node)
+        return src[5:] if src.startswith("self._") and src.count(".") == 1 else None
+
+    def note(kind, attr):
+        if attr is None:
+            return False
+        style.setdefault("kind", kind)
+        style.setdefault("attr", attr)
+        return style["kind"] == kind and style["attr"] == attr
 
     def is_marker_assign(s, val):
-        return isinstance(s, ast.Assign) and ast.unparse(s.targets[0]) == "self._lock_acquired.acquired" \
-            and isinstance(s.value, ast.Constant) and s.value.value is val
+        if not (isinstance(s, ast.Assign) and len(s.targets) == 1):
+            return False
+        t = s.targets[0]
+        if isinstance(t, ast.Attribute) and t.attr == "acquired" and isinstance(s.value, ast.Constant) \
+                and s.value.value is val:
+            return note("local", marker_of(t.value))
+        if isinstance(t, ast.Attribute) and marker_of(t) is not None:
+            if val is True and is_ident(s.value):
+                return note("owner", marker_of(t))
+            if val is False and isinstance(s.value, ast.Constant) and s.value.value is None:
+                return note("owner", marker_of(t))
+        return False
 
     def is_check(s):
-        return isinstance(s, ast.If) and ast.unparse(s.test) == "getattr(self._lock_acquired, 'acquired', False)" \
-            and len(s.body) == 1 and isinstance(s.body[0], ast.Raise) and not s.orelse \
-            and ast.unparse(s.body[0].exc).startswith("RuntimeError(")
+        if not (isinstance(s, ast.If) and len(s.body) == 1 and isinstance(s.body[0], ast.Raise) and not s.orelse
+                and ast.unparse(s.body[0].exc).startswith("RuntimeError(")):
+            return False
+        t = s.test
+        if isinstance(t, ast.Call) and ast.unparse(t.func) == "getattr" and len(t.args) == 3 \
+                and ast.unparse(t.args[1]) == "'acquired'" and ast.unparse(t.args[2]) == "False":
+            return note("local", marker_of(t.args[0]))
+        if isinstance(t, ast.Compare) and len(t.ops) == 1 and isinstance(t.ops[0], (ast.Eq, ast.Is)):
+            l, r = t.left, t.comparators[0]
+            if marker_of(l) is not None and is_ident(r):
+                return note("owner", marker_of(l))
+            if marker_of(r) is not None and is_ident(l):
+                return note("owner", marker_of(r))
+        return False
 
     def is_locked_yield(s):
         return isinstance(s, ast.With) and ast.unparse(s.items[0].context_expr) == "self._lock" \
             and len(s.body) == 1 and ast.unparse(s.body[0]) == "yield"
+
+    def per_thread():
+        if style.get("kind") != "local":
+            return False
+        want = "self.%s = threading.local()" % style["attr"]
+        for name in ("__init__", "__setstate__"):
+            f = find_func(tree, name, cls="Handler")
+            if not any(isinstance(n, ast.Assign) and ast.unparse(n) == want for n in ast.walk(f)):
+                return False
+        return True
 
     # shape 1 (as written): check; set; try: with lock: yield; finally: reset
     if len(body) == 3 and is_check(body[0]) and is_marker_assign(body[1], True) and isinstance(body[2], ast.Try):
@@ -184,19 +240,19 @@ def shape_lock(tree):
         if t.handlers or t.orelse or len(t.body) != 1 or not is_locked_yield(t.body[0]):
             raise Unsupported("_protected_lock: try body changed")
         if len(t.finalbody) == 1 and is_marker_assign(t.finalbody[0], False):
-            return True, True
+            return True, True, per_thread()
         raise Unsupported("_protected_lock: finally body changed")
     # shape 2: reset after the with, not in a finally
     if len(body) == 4 and is_check(body[0]) and is_marker_assign(body[1], True) and is_locked_yield(body[2]) \
             and is_marker_assign(body[3], False):
-        return True, False
+        return True, False, per_thread()
     # shape 3: check moved inside the try (its failure would run the finally and reset the marker)
     if len(body) == 1 and isinstance(body[0], ast.Try):
         t = body[0]
         if not t.handlers and not t.orelse and len(t.body) == 3 and is_check(t.body[0]) \
                 and is_marker_assign(t.body[1], True) and is_locked_yield(t.body[2]) \
                 and len(t.finalbody) == 1 and is_marker_assign(t.finalbody[0], False):
-            return False, True
+            return False, True, per_thread()
     raise Unsupported("_protected_lock: unrecognised shape")
 
 
@@ -360,6 +416,35 @@ def shape_stop(tree):
     return wb.index("self._stopped = True") == 0
 
 
+def shape_async_write(tree):
+    """which error kinds raised while the task is being scheduled (`self._function(message)`,
+    `loop.create_task(...)`) are silently swallowed by `AsyncSink.write` -> list of Py.Err names.
+    As written: none – the `except RuntimeError: return` guards the loop lookup only."""
+    cls = find_class(tree, "AsyncSink")
+    w = find_func(cls, "write")
+    body = strip_doc(w.body)
+    if not body or not isinstance(body[0], ast.Try):
+        raise Unsupported("AsyncSink.write does not start with the loop lookup try")
+    t = body[0]
+    if t.finalbody or t.orelse or len(t.handlers) != 1 or [ast.unparse(x) for x in t.handlers[0].body] != ["return"]:
+        raise Unsupported("AsyncSink.write: loop lookup handler changed")
+    if not t.body or ast.unparse(t.body[0]) != "loop = self._loop or get_running_loop()":
+        raise Unsupported("AsyncSink.write: loop lookup changed")
+    guarded = caught_set(t.handlers[0].type)
+
+    def schedules(node):
+        return any(ast.unparse(c.func).endswith(".create_task") or ast.unparse(c.func) == "self._function"
+                   for c in calls_in(node))
+    inside = any(schedules(x) for x in t.body[1:])
+    outside = [x for x in body[1:] if not isinstance(x, ast.FunctionDef) and schedules(x)]
+    for x in body[1:]:
+        if isinstance(x, (ast.Try, ast.With)) and schedules(x):
+            raise Unsupported("AsyncSink.write: scheduling wrapped in another try/with")
+    if not inside and not outside:
+        raise Unsupported("AsyncSink.write: create_task not found")
+    return guarded if inside else []
+
+
 def shape_task(tree):
     cls = find_class(tree, "AsyncSink")
     fn = None
@@ -390,9 +475,10 @@ def generate():
         body += lean_pred("emitCaught", caught, "error kinds covered by the `except` clause around `Handler.emit`'s pipeline")
         body += "/-- order of the stages that run before `_protected_lock` in `Handler.emit` -/\n"
         body += "def preLockStages : List Stage := [%s]\n" % ", ".join("." + s for s in order)
-        chk, fin = shape_lock(h)
+        chk, fin, per = shape_lock(h)
         body += lean_bool("markerCheckedBeforeSet", chk, "`_protected_lock`: the re-entrancy test raises before the marker is set, outside the try")
         body += lean_bool("markerResetInFinally", fin, "`_protected_lock`: the marker is reset in a `finally`")
+        body += lean_bool("markerPerThread", per, "`_protected_lock`: the marker is a `threading.local()` (created in __init__ and __setstate__), not one attribute shared by all threads")
         wcaught, ag, aw = shape_worker(h)
         body += lean_pred("workerCaught", wcaught, "error kinds covered by the two `except` clauses of `_queued_writer`")
         body += "/-- what the `get` arm of `_queued_writer` does after reporting -/\ndef workerGetArm : Arm := .%s\n" % ag
@@ -408,6 +494,7 @@ def generate():
         body += lean_bool("printGuardsRecordStr", guards, "`ErrorInterceptor.print`: `str(record)` failure replaced by a placeholder")
         ss, _ = parse_module("_simple_sinks.py")
         body += lean_bool("streamFlushAfterWrite", shape_stream(ss), "`StreamSink.write`: write, then flush")
+        body += lean_pred("asyncScheduleSwallows", shape_async_write(ss), "error kinds raised while a coroutine sink schedules its task (`create_task`) that `AsyncSink.write` silently swallows")
         r1, r2 = shape_task(ss)
         body += lean_bool("taskCallbackRetrieves", r1, "`AsyncSink`: a done-callback retrieves the task's exception")
         body += lean_bool("taskCallbackReraises", r2, "`AsyncSink`: with catch=False the callback re-raises it (loop exception handler)")
